@@ -865,6 +865,42 @@ def fam_attr():
   return _fam("F-attr", prod.n, decode, "JC x VP x rows of text x double height x display standard/row-count configuration x MNR")
 
 
+def fam_attr_pairs():
+  """two subtitles in one file whose regions may coincide in geometry but differ in anchoring (VP 1 / top of the safe area
+  versus a bottom subtitle ending on the last row), in both orders"""
+  shapes = [(1, 1), (1, 2), (2, 1), (11, 1), (12, 2), (21, 3), (22, 2), (23, 1), (22, 1)]
+  prod = Product([shapes, shapes, [0, 2], [(b"1", None), (b"0", 11)]])
+
+  def decode(i):
+    (vp1, n1), (vp2, n2), jc, (dsc, mrc) = prod.decode(i)
+    cfg = {} if mrc is None else {"max_row_count": mrc}
+    if mrc == 11:
+      vp1, vp2 = min(vp1, 11), min(vp2, 11)
+    ttis = [{"sn": 1, "jc": jc, "vp": vp1, "tf": LINES[(n1, False)], "tci": [0, 0, 1, 0], "tco": [0, 0, 2, 0]},
+            {"sn": 2, "jc": jc, "vp": vp2, "tf": LINES[(n2, False)], "tci": [0, 0, 3, 0], "tco": [0, 0, 4, 0]}]
+    return {"focus": "attr", "gsi": {"dsc": dsc, "mnr": 23}, "ttis": ttis, "config": cfg, "nt": True}
+  return _fam("F-attr-pairs", prod.n, decode, "two subtitles: (VP, rows) x (VP, rows) x JC x display standard")
+
+
+def fam_dropped_chain():
+  """a subtitle made of an extension chain that is dropped (starts before the programme start, or TCO < TCI), followed by
+  ordinary subtitles: nothing of the dropped one may leak into the following ones"""
+  prod = Product([[1, 2], ["before-start", "tco<tci"], [None, "00:00:05:00"], [0, 1], [1, 2]])
+
+  def decode(i):
+    next_blocks, why, pst, cs, follow = prod.decode(i)
+    tci, tco = ([0, 0, 1, 0], [0, 0, 2, 0]) if why == "before-start" else ([0, 0, 9, 0], [0, 0, 8, 0])
+    ttis = []
+    for k in range(next_blocks):
+      ttis.append({"sn": 1, "ebn": k, "tf": b"EARLY%d " % k, "tci": tci, "tco": tco})
+    ttis.append({"sn": 1, "ebn": 0xFF, "tf": b"LAST", "tci": tci, "tco": tco})
+    for k in range(follow):
+      ttis.append({"sn": 2 + k, "cs": cs if k == 0 and follow == 1 else 0, "tf": b"FIRST" if k == 0 else b"SECOND", "tci": [0, 0, 10 + 2 * k, 0], "tco": [0, 0, 11 + 2 * k, 0]})
+    cfg = {} if pst is None else {"program_start_tc": pst}
+    return {"focus": "ebn", "gsi": {"dsc": b"1"}, "ttis": ttis, "config": cfg, "probe": True, "nt": True}
+  return _fam("F-dropped-chain", prod.n, decode, "multi-block subtitle that is dropped, followed by ordinary subtitles")
+
+
 # ---------------------------------------------------------------------------------------------------
 # families: time codes
 
@@ -1031,6 +1067,8 @@ def plan(tier, seed):
     fams.append(fam_charset_single(cct))
   fams.append(fam_charset_pairs())
   fams.append(fam_attr())
+  fams.append(fam_attr_pairs())
+  fams.append(fam_dropped_chain())
   for dfc in DFCS:
     fams.append(fam_time(dfc))
   fams.append(fam_config())
